@@ -78,6 +78,10 @@ CHECKS = {
    text="Round robin: n*k selections per goroutine from 1/4/32 goroutines over 1-17 unchanged hosts give every host exactly its share from any start index; random/least-connection always pick a candidate, least-connection never the strictly busier of its two recorded samples, empty list gives nil. End to end under all three policies: in windows where every member backend has served >= 5 probes since the last scripted change, every connection lands on a healthy member of the preferred tier (backups only when no main is healthy), is closed when no host is usable, round robin is exact over the usable hosts, and connections held to a host are closed within 4 s of its removal.",
    note="Settled-window semantics only; bursts racing a change are not judged. Trusted: backends identify themselves and serve the atcp probes themselves.",
    ref="DESIGN.md section 4 C06"),
+ "C09": dict(level="fault_enumeration", technique="lifecycle placement enumeration (hook rendezvous at bind / publish / accept, occupied port, connections and requests in flight) x backend behaviour x protocol x action; progress-relative deadline + two-dump stuck detector on Stop / StopListen; post-stop release monitors (port, downstream and upstream connections, goroutine profile); connection-limit monitor",
+   text="Stop and Drain are called immediately after Start, during bind retries, between bind and socket publication, before the accept loop and while serving 0/1/50 connections with requests in flight, against responsive / silent / not-reading / closed backends (and a silent slot refresh) for redis and tcp: the call must return within 6 s (a hang needs two identical goroutine dumps), then nobody serves the port, every downstream and upstream connection is closed within 3 s and no goroutine with a frame in samaritan/proc or samaritan/host remains; after Drain established connections still work; with limit L in {1,3,16} at most L connections are ever served at once and a freed slot is reusable.",
+   note="Trusted: pause-point placement; the goroutine-profile filter (tcp-shaker singleton excluded); 'served' is observed at the backend's accept/close log.",
+   ref="DESIGN.md section 4 C09"),
 }
 NOT_BUILT = "check not built yet in this session (design in DESIGN.md section 4)"
 
